@@ -37,7 +37,7 @@ RULE = ("each seeded scenario is run through all 28 entry-point variants and the
 COMPONENTS = common.REAL_COMPONENTS
 ASSUMPTIONS = ["abnormal terminations are C08/C13's domain and are not generated here",
                "normalisation is limited to the documented differences listed in the module docstring", "sampling, not proof"]
-BUDGETS = {"quick": (5000, 60), "thorough": (250000, 290)}
+BUDGETS = {"quick": (8000, 90), "thorough": (250000, 285)}
 SHRINK_CAP = 150
 
 CALL_ENTRIES = G.SYNC_ENTRIES
